@@ -39,7 +39,15 @@ def spec(tier):
           (3, eg.TTOPO, 'first', 'one', b)]
 
 
+PLAN_CHAIN = {'shipped': True, 'uniform': ['WO8c', 'FP16', 'DRQ4c', 'SRQ16'],
+              'io': ['none']}
+PLANS['chain'] = PLAN_CHAIN
+
+
 def cases(tier):
+  for n in ((4, 5) if tier == 'quick' else (4, 5, 6)):
+    for g in eg.chains(n, ['FULLY_CONNECTED', 'TANH', 'RESHAPE']):
+      yield {'ir': g, 'rp': 'chain'}
   for n, types, variants, exports, pname in spec(tier):
     yield from universe.graph_cases([(n, types, variants, exports)],
                                     {'rp': pname})
